@@ -585,6 +585,16 @@ func (s *Server) cmdEvalUnified(scriptIsSha bool, msg *Message) (res resp.Value,
 			return NOMessage, errors.New(
 				"Unsupported lua type: " + ret.Type().String())
 		}
+		if tbl, ok := ret.(*lua.LTable); ok && tbl.Len() == 0 {
+			// the reply convention of the RESP form: a table holding only
+			// `err` is an error reply, not a successful result
+			var n int
+			var k, v lua.LValue
+			tbl.ForEach(func(lk, lv lua.LValue) { n, k, v = n+1, lk, lv })
+			if n == 1 && k.Type() == lua.LTString && k.String() == "err" {
+				return NOMessage, errors.New(v.String())
+			}
+		}
 		var buf bytes.Buffer
 		buf.WriteString(`{"ok":true`)
 		buf.WriteString(`,"result":` + ConvertToJSON(ret))
